@@ -3,7 +3,11 @@
 EXTENDS JsonRT, Json, IOUtils, SequencesExt, FiniteSetsExt
 CONSTANTS Gob, Tier
 PairTypes == IF Tier = "thorough" THEN GoTypes ELSE {"Object", "Place", "Link"}
-AllCases == OneField(Gob) \cup UntypedOne(Gob) \cup AllTypeNames \cup Nested1 \cup Full(Gob) \cup TopLevel \cup Pairwise(PairTypes, Gob)
+\* "nested to arbitrary depth": reply chains 50 and 120 levels deep (the Json module of TLC reads at most 255 nested JSON values, i.e. about 125 levels of the abstract value)
+RECURSIVE ReplyChain(_)
+ReplyChain(n) == IF n = 0 THEN Iri(Base \o "root") ELSE With(BaseV("Object", 1000 + n), "inReplyTo", ReplyChain(n - 1))
+DeepCases == {Case("deep", "Object", "inReplyTo", "depth-" \o ToString(n), ReplyChain(n)) : n \in {50, 120}}
+AllCases == DeepCases \cup OneField(Gob) \cup UntypedOne(Gob) \cup AllTypeNames \cup Nested1 \cup Full(Gob) \cup TopLevel \cup Pairwise(PairTypes, Gob)
 ModelUniverse == IF Tier = "thorough" THEN OneField(TRUE) \cup AllTypeNames \cup Nested1 \cup Full(TRUE) \cup TopLevel
                  ELSE {c \in OneField(TRUE) : c.lab.g \in {"Actor", "Question", "Place", "Link", "OrderedCollectionPage"}} \cup Nested1 \cup Full(TRUE) \cup TopLevel
 GenInit == phase = "gen" /\ codec = "json" /\ orig = NilItem /\ val = NilItem
